@@ -664,6 +664,200 @@ pub fn depart_outcome(c: &DepartCase) -> Outcome {
     o
 }
 
+// --------------------------------------------------------------------------------------------
+// a send that is blocked by back-pressure is abandoned by the caller (timeout, select!)
+
+#[derive(Debug, Clone, Serialize, Deserialize, PartialEq, Eq, Hash)]
+pub struct CancelSendCase {
+    pub kind: Kind,
+    /// connected peers (1..=4)
+    pub peers: usize,
+    /// successful sends before
+    pub warm: usize,
+    /// the peer whose connection stops accepting bytes
+    pub stall_peer: usize,
+    /// bytes it still accepts before it stalls
+    pub budget: usize,
+    /// second-frame length of the send that gets stuck
+    pub size: usize,
+    /// sends afterwards, in multiples of the number of peers
+    pub rounds: usize,
+}
+
+pub fn cancel_send_outcome(c: &CancelSendCase) -> Outcome {
+    let mut o = Outcome::new(hash_of(c));
+    o.nontrivial = true;
+    o.class("blocked-send-abandoned");
+    let c2 = c.clone();
+    let (r, panics) = capture_panics(|| {
+        run_sim(async move {
+            let c = c2;
+            let kind = c.kind;
+            let who = kind.name();
+            let mut f: Vec<Failure> = vec![];
+            let mut reached = false;
+            let mut sim = Sim::new();
+            let s = sim.socket(kind, None);
+            let n = c.peers.clamp(1, 4);
+            let mut links: Vec<Link> = vec![];
+            for _ in 0..n {
+                match crate::simx::attach_raw(&mut sim, s, None).await {
+                    Ok((l, _)) => links.push(l),
+                    Err(e) => {
+                        fail!(f, format!("C10/{}/setup", who), "{}", e);
+                        return (f, reached);
+                    }
+                }
+            }
+            // which connection holds a complete message carrying this tag
+            let holder = |links: &Vec<Link>, tag: &[u8]| -> Vec<usize> { (0..links.len()).filter(|j| links[*j].lib_messages_prefix().map(|x| x.0.iter().any(|m| m.iter().any(|fr| fr == tag))).unwrap_or(false)).collect() };
+            let mut sent_tags: Vec<Vec<u8>> = vec![];
+            macro_rules! small_send {
+                ($tag:expr) => {{
+                    let tag: Vec<u8> = $tag.into_bytes();
+                    let a = sim.send(s, &[tag.clone(), b"x".to_vec()]);
+                    match sim.run(a).await {
+                        Ok(Some(Out::Send(Ok(())))) => {
+                            let h = holder(&links, &tag);
+                            sent_tags.push(tag);
+                            if h.len() == 1 {
+                                if kind == Kind::Req {
+                                    links[h[0]].raw_send_now(&[vec![], b"ans".to_vec()]);
+                                    let r = sim.recv(s);
+                                    let _ = sim.run(r).await;
+                                }
+                                Ok(Some(h[0]))
+                            } else {
+                                Err(h)
+                            }
+                        }
+                        Ok(Some(Out::Send(Err(e)))) => {
+                            let _ = e;
+                            Ok(None)
+                        }
+                        Ok(None) => {
+                            sim.cancel(a);
+                            Ok(None)
+                        }
+                        _ => Ok(None),
+                    }
+                }};
+            }
+            for i in 0..c.warm {
+                match small_send!(format!("warm-{}", i)) {
+                    Ok(Some(_)) => {}
+                    other => {
+                        fail!(f, format!("C10/{}/send-fails-with-connected-peers", who), "warm-up send #{} over {} healthy peers: {:?}", i, n, other);
+                        return (f, reached);
+                    }
+                }
+            }
+            let j = c.stall_peer % n;
+            links[j].from_lib.set_window(Window::Budget(c.budget));
+            let big_body = fill(77, c.size.max(c.budget + 64));
+            let mut big_tags: Vec<Vec<u8>> = vec![];
+            let mut stuck = false;
+            for bi in 0..n {
+                let big_tag = format!("big-send-{}", bi).into_bytes();
+                big_tags.push(big_tag.clone());
+                let big: Frames = vec![big_tag.clone(), big_body.clone()];
+                let a = sim.send(s, &big);
+                match sim.run(a).await {
+                    Ok(None) => {
+                        // blocked on peer j's connection: the caller gives up
+                        sim.cancel(a);
+                        stuck = true;
+                        break;
+                    }
+                    Ok(Some(Out::Send(Ok(())))) => {
+                        // went to another peer, whole
+                        let h = holder(&links, &big_tag);
+                        if let Some(h) = h.first() {
+                            if kind == Kind::Req {
+                                links[*h].raw_send_now(&[vec![], b"ans".to_vec()]);
+                                let r = sim.recv(s);
+                                let _ = sim.run(r).await;
+                            }
+                        }
+                    }
+                    other => {
+                        fail!(f, format!("C10/{}/send-fails-with-connected-peers", who), "{:?}", other.map(|o| o.map(|o| o.err_text().map(|s| s.to_string()))));
+                        return (f, reached);
+                    }
+                }
+            }
+            if !stuck {
+                fail!(f, format!("C10/{}/rotation-not-strict", who), "{} sends over {} peers never tried peer {}", n, n, j);
+                return (f, reached);
+            }
+            reached = true;
+            // the connection accepts bytes again; all n peers are connected and healthy
+            links[j].from_lib.set_window(Window::Open);
+            let _ = sim.settle().await;
+            let want = c.rounds.max(2) * n;
+            let mut targets: Vec<usize> = vec![];
+            for i in 0..want {
+                match small_send!(format!("job-{}", i)) {
+                    Ok(Some(t)) => targets.push(t),
+                    Ok(None) => {
+                        fail!(f, format!("C10/{}/send-fails-with-connected-peers", who), "send #{} after an abandoned send failed or blocked although all {} peers are connected and accept bytes", i, n);
+                        return (f, reached);
+                    }
+                    Err(h) => {
+                        fail!(f, format!("C10/{}/not-exactly-one-peer", who), "send #{} after an abandoned send returned Ok; connections holding it as a complete message: {:?}", i, h);
+                        return (f, reached);
+                    }
+                }
+            }
+            for w in targets.windows(n) {
+                let mut t = w.to_vec();
+                t.sort();
+                t.dedup();
+                if t.len() != n {
+                    fail!(f, format!("C10/{}/rotation-not-strict", who), "a send blocked on peer {} was abandoned; afterwards {} consecutive successful sends over the {} connected peers reached {:?}", j, n, n, w);
+                    break;
+                }
+            }
+            // every connection carries whole messages only: the sent ones, each at most once, and
+            // possibly the abandoned one (whole, once, on the connection it was started on)
+            let _ = sim.settle().await;
+            let mut seen: Vec<Vec<u8>> = vec![];
+            for (li, l) in links.iter().enumerate() {
+                match l.lib_messages_prefix() {
+                    Ok((msgs, residue)) => {
+                        if residue != 0 {
+                            fail!(f, format!("C10/{}/fragment-left-on-a-connection", who), "connection {} ends with a {}-byte fragment of a message after {} further sends", li, residue, want);
+                        }
+                        for m in msgs {
+                            let body: &[Vec<u8>] = if kind == Kind::Req && m.first().map(|x| x.is_empty()).unwrap_or(false) { &m[1..] } else { &m[..] };
+                            let tag = body.first().cloned().unwrap_or_default();
+                            let is_big = big_tags.contains(&tag);
+                            let known = sent_tags.contains(&tag) || is_big;
+                            let whole = if is_big { body.len() == 2 && body[1] == big_body } else { body.len() == 2 && body[1] == b"x" };
+                            if !known || !whole || seen.contains(&tag) {
+                                fail!(f, format!("C10/{}/message-incomplete-or-modified-at-return", who), "connection {} carries a message tagged {:?} ({} frames) that is not exactly one of the sent ones", li, String::from_utf8_lossy(&tag), body.len());
+                            }
+                            seen.push(tag);
+                        }
+                    }
+                    Err(e) => fail!(f, format!("C10/{}/wire-malformed", who), "connection {}: {}", li, e),
+                }
+            }
+            (f, reached)
+        })
+    });
+    if let Some((f, reached)) = r {
+        o.failures = f;
+        if reached {
+            o.class("send-abandoned-while-blocked-then-rotation-checked");
+        }
+    }
+    for p in panics {
+        o.fail(format!("C10/panic/{}", panic_sig(&p)), p);
+    }
+    o
+}
+
 pub fn gen_rr(s: &mut Src<'_>, max_exp: usize) -> RrCase {
     let kind = s.pick(&[Kind::Push, Kind::Dealer, Kind::Req]);
     let initial_peers = s.pick(&[0usize, 1, 2, 2, 3, 3, 4, 5]);
@@ -728,6 +922,23 @@ pub fn run(ctx: &Ctx) -> (Report, PropertyMeta) {
         }
         let r = run_cases(ctx, "depart", &dc, depart_outcome);
         report.exhaustive_parts.push(format!("PUSH/DEALER/REQ x 2..5 peers x each peer departing (closed / reset and read by the sender, or failing writes met by a send) x 5 warm-up lengths, then 3 rounds over the remaining peers: {} cases", dc.len()));
+        report.merge(r);
+    }
+    {
+        let mut cc = vec![];
+        for kind in [Kind::Push, Kind::Dealer, Kind::Req] {
+            for peers in 1..=4usize {
+                for stall_peer in 0..peers {
+                    for (budget, size) in [(0usize, 100usize), (5, 100), (40, 300_000), (200_000, 300_000)] {
+                        for warm in [0usize, 1, peers + 1] {
+                            cc.push(CancelSendCase { kind, peers, warm, stall_peer, budget, size, rounds: 3 });
+                        }
+                    }
+                }
+            }
+        }
+        let r = run_cases(ctx, "cancel_send", &cc, cancel_send_outcome);
+        report.exhaustive_parts.push(format!("PUSH/DEALER/REQ x 1..4 peers x each peer stalling after 0 / 5 / 40 / 200000 more bytes x 3 warm-up lengths: the send that blocks on it is abandoned, the peer accepts bytes again, then 3 rounds: {} cases", cc.len()));
         report.merge(r);
     }
     let mut cases = vec![];
@@ -806,6 +1017,7 @@ pub fn run(ctx: &Ctx) -> (Report, PropertyMeta) {
     }
     let total = report.evaluations;
     health_abs(&mut report, "departure-observed-then-rotation-checked", 300);
+    health_abs(&mut report, "send-abandoned-while-blocked-then-rotation-checked", 300);
     health(&mut report, "rotation-window-checked", total, 200);
     health(&mut report, "joiner-window-checked", total, 50);
     health_abs(&mut report, "join-while-send-in-flight", 50);
@@ -825,6 +1037,7 @@ pub fn replay(_ctx: &Ctx, kind: &str, case: &Value) -> Vec<Failure> {
         "rr" => parse_case::<RrCase>(case).map(|c| rr_outcome(&c).failures),
         "rejoin" => parse_case::<RejoinCase>(case).map(|c| rejoin_outcome(&c).failures),
         "depart" => parse_case::<DepartCase>(case).map(|c| depart_outcome(&c).failures),
+        "cancel_send" => parse_case::<CancelSendCase>(case).map(|c| cancel_send_outcome(&c).failures),
         _ => Err(vec![Failure::new("replay/unknown-kind", kind.to_string())]),
     }
     .unwrap_or_else(|e| e)
